@@ -292,6 +292,11 @@ class Expr:
 
     def args(self, order=None):
         names = order if order is not None else list(self.free)
+        missing = [k for k in names if k not in self.env]
+        extra = [k for k in self.free if k not in names]
+        if missing or extra:
+            # the expression no longer mentions what the model's function takes (or mentions something else): not the same function
+            raise Untranslatable(f"UNTRANSLATABLE: the expression's variables changed: expected {names}, not found {missing}, unexpected {extra}")
         tymap = {"str": "str", "Z": "Z", "bool": "bool", "optZ": "option Z", "optstr": "option str", "has": "has", "wants": "wants", "stype": "stype"}
         return " ".join(f"({k} : {tymap[self.env[k]]})" for k in names)
 
@@ -370,14 +375,14 @@ def nth_test(tree, qual, n, env, coqname, order=None, calls=None, expect_count=N
     return f"(* line {ifs[n].lineno} *) Definition {coqname} {ex.args(order)} : bool := {body}."
 
 
-def return_expr(tree, qual, env, coqname, order=None, calls=None, which=-1, ty="bool"):
+def return_expr(tree, qual, env, coqname, order=None, calls=None, which=-1, ty="bool", atoms=None):
     """the expression of the (last by default) `return` of function `qual`"""
     fn = find_func(tree, qual)
     rets = [n for n in ast.walk(fn) if isinstance(n, ast.Return) and n.value is not None]
     rets.sort(key=lambda n: n.lineno)
     if not rets:
         raise Untranslatable(f"UNTRANSLATABLE: no return in {qual}")
-    ex = Expr(env, calls)
+    ex = Expr(env, calls, atoms)
     body = ex.truthy(rets[which].value) if ty == "bool" else ex.tr(rets[which].value)
     return f"(* line {rets[which].lineno} *) Definition {coqname} {ex.args(order)} := {body}."
 
